@@ -402,7 +402,7 @@ fn non_delim(rng: &mut Rng) -> u8 {
 
 /// garbage episode: (must_be_discarded, bytes, chunk lengths)
 fn garbage_episode(rng: &mut Rng, fcs: &[FunctionCode], single: bool) -> String {
-    let kind = rng.below(8);
+    let kind = rng.below(10);
     let (must, bytes): (bool, Vec<u8>) = match kind {
         0 | 1 => {
             let n = 1 + rng.below(12) as usize;
@@ -456,6 +456,26 @@ fn garbage_episode(rng: &mut Rng, fcs: &[FunctionCode], single: bool) -> String 
             let mut f = tel_bytes(&random_tel(rng, fcs, k));
             let pos = rng.below(f.len() as u64) as usize;
             f[pos] ^= 1 << rng.below(8);
+            (false, f)
+        }
+        8 | 9 => {
+            // a VALID but non-canonical variable-length frame: SD2 with LE = 3 or 11 (the crate's own
+            // encoder would use SD1 / SD3), alone, followed by another telegram, or by one more byte
+            let n = if kind == 8 { 3usize } else { 11 };
+            let mut body = vec![rng.below(126) as u8, rng.below(126) as u8, fcs[rng.below(fcs.len() as u64) as usize].to_byte()];
+            while body.len() < n {
+                body.push(rng.byte());
+            }
+            let cks = body.iter().fold(0u8, |a, b| a.wrapping_add(*b));
+            let mut f = vec![0x68, n as u8, n as u8, 0x68];
+            f.extend_from_slice(&body);
+            f.push(cks);
+            f.push(0x16);
+            match rng.below(3) {
+                0 => {}
+                1 => f.extend_from_slice(&tel_bytes(&random_tel(rng, fcs, 1))),
+                _ => f.push(0xE5),
+            }
             (false, f)
         }
         _ => {
